@@ -1,4 +1,164 @@
+import BobModel.Model.Dirs
+import BobModel.Model.Clean
 import BobModel.Util.Proto
-open Lean Proto
-/-- stub driver of C16: replaced when the model of this property is built -/
-def main : IO Unit := runPure fun _ => err "unsupported"
+open Lean Proto BobDirs BobClean
+
+/-
+requests (one JSON object per line):
+ {"op":"refresh","old":[[key,dir],..],"visits":[[recipeHex,vidHex,baseDir],..]}
+     -> {"table":[[key,dir],..],"kept":n}                      key = recipeHex ++ vidHex (hex of the sqlite key)
+ {"op":"byname","state":[[key,null|n,dir,isSrc],..],"calls":[[baseDir,digest,isSrc],..]}
+     -> {"paths":[..],"state":[..],"all":[[dir,isSrc],..]} | {"err":"typeError"}
+ {"op":"existing","state":[..],"digest":d} -> {"dir": s|null} | {"err":..}
+ {"op":"base","mode":"develop"|"release","label":l,"name":n} -> {"base":s}
+ {"op":"clean","mode":m,"src":b,"force":b,"dryRun":b,"verbose":b,"root":id,"fuel":n,
+    "pkgs":[{"id":n,"co":[valid,path|null,vid],"b":[..],"p":[..],"deps":[ids]}],
+    "states":[[path,"src"|"build"|"pkg",vid],..],"byname":[[dir,isSrc],..],"attic":[..],
+    "existing":[..],"expendable":[..],"atticExpendable":[..]}
+     -> {"used":[..],"del":[..],"ops":[[kind,path],..],"states":[..],"existing":[..],"attic":[..]} | {"err":"fuel"}
+ {"op":"prune","kind":"build","created":b,"present":b,"force":b,"old":s|null,"new":s,"stored":s|null,"inputs":s}
+ {"op":"prune","kind":"package","there":b,"fileOrLink":b,"old":s|null,"new":s}
+     -> {"ops":[..]}
+-/
+
+def jstr (s : Str) : Json := Json.str (String.ofList s)
+
+def optStr (j : Json) : Option Str :=
+  match j with
+  | .str s => some s.toList
+  | _ => none
+
+def arrOf (j : Json) : List Json :=
+  match j with
+  | .arr a => a.toList
+  | _ => []
+
+def nth (l : List Json) (i : Nat) : Json := (l[i]?).getD Json.null
+
+def jBool (j : Json) : Bool :=
+  match j with
+  | .bool b => b
+  | _ => false
+
+def jStr (j : Json) : Str :=
+  match j with
+  | .str s => s.toList
+  | _ => []
+
+def pairs (j : Json) (k : String) : List (Str × Str) :=
+  (getArr j k).map fun e => let a := arrOf e; (jStr (nth a 0), jStr (nth a 1))
+
+def tableJson (t : Table) : Json :=
+  Json.arr (t.map fun kv => Json.arr #[jstr kv.1, jstr kv.2]).toArray
+
+def bynameOf (j : Json) (k : String) : ByName :=
+  (getArr j k).map fun e =>
+    let a := arrOf e
+    match nth a 1 with
+    | .null => (jStr (nth a 0), BVal.dir (jStr (nth a 2)) (jBool (nth a 3)))
+    | n => (jStr (nth a 0), BVal.num ((n.getNat?.toOption).getD 0))
+
+def bynameJson (s : ByName) : Json :=
+  Json.arr (s.map fun kv => match kv.2 with
+    | .num n => Json.arr #[jstr kv.1, Json.num n, Json.null, Json.null]
+    | .dir p b => Json.arr #[jstr kv.1, Json.null, jstr p, Json.bool b]).toArray
+
+def stepOf (j : Json) : Step :=
+  let a := arrOf j
+  { valid := jBool (nth a 0), path := optStr (nth a 1), vid := jStr (nth a 2) }
+
+def pkgOf (j : Json) : Pkg :=
+  { id := getNat j "id", checkout := stepOf (j.getObjValD "co"), build := stepOf (j.getObjValD "b"),
+    package := stepOf (j.getObjValD "p"),
+    deps := (getArr j "deps").map fun d => (d.getNat?.toOption).getD 0 }
+
+def statesOf (j : Json) (k : String) : States :=
+  (getArr j k).map fun e =>
+    let a := arrOf e
+    let p := jStr (nth a 0)
+    match nth a 1 with
+    | .str "src" => (p, DirState.src)
+    | .str "build" => (p, DirState.build (jStr (nth a 2)))
+    | _ => (p, DirState.pkg (jStr (nth a 2)))
+
+def statesJson (s : States) : Json :=
+  Json.arr (s.map fun kv => match kv.2 with
+    | .src => Json.arr #[jstr kv.1, Json.str "src", Json.str ""]
+    | .build v => Json.arr #[jstr kv.1, Json.str "build", jstr v]
+    | .pkg v => Json.arr #[jstr kv.1, Json.str "pkg", jstr v]).toArray
+
+def strsOf (j : Json) (k : String) : List Str := (getArr j k).map jStr
+def strsJson (l : List Str) : Json := Json.arr (l.map jstr).toArray
+
+def opJson : Op → Json
+  | .print d => Json.arr #[Json.str "print", jstr d]
+  | .rm d => Json.arr #[Json.str "rm", jstr d]
+  | .delState d => Json.arr #[Json.str "delState", jstr d]
+  | .delAttic d => Json.arr #[Json.str "delAttic", jstr d]
+
+def prepJson : PrepOp Str → Json
+  | .unlink => Json.str "unlink"
+  | .emptyDir => Json.str "emptyDir"
+  | .resetState d => Json.arr #[Json.str "resetState", jstr d]
+  | .run => Json.str "run"
+  | .skip => Json.str "skip"
+
+def modeOf (s : String) : Mode :=
+  match s with
+  | "release" => .release
+  | "attic" => .attic
+  | _ => .develop
+
+def main : IO Unit := runPure fun j =>
+  match getStr j "op" with
+  | "refresh" =>
+    let old := pairs j "old"
+    let visits : List (Key × Str) := (getArr j "visits").map fun e =>
+      let a := arrOf e
+      (mkKey (jStr (nth a 0)) (jStr (nth a 1)), jStr (nth a 2))
+    let c := collect old visits
+    match writeBack c with
+    | none => Json.mkObj [("err", Json.str "fuel")]
+    | some t => Json.mkObj [("table", tableJson t), ("kept", Json.num c.known.length)]
+  | "byname" =>
+    let calls : List Call := (getArr j "calls").map fun e =>
+      let a := arrOf e
+      { base := jStr (nth a 0), digest := jStr (nth a 1), isSrc := jBool (nth a 2) }
+    match runCalls (bynameOf j "state") calls with
+    | .error _ => Json.mkObj [("err", Json.str "typeError")]
+    | .ok (s, ps) =>
+      Json.mkObj [("paths", strsJson ps), ("state", bynameJson s),
+        ("all", Json.arr ((allNameDirs s).map fun d => Json.arr #[jstr d.1, Json.bool d.2]).toArray)]
+  | "existing" =>
+    match getExisting (bynameOf j "state") (getStr j "digest").toList with
+    | .error _ => Json.mkObj [("err", Json.str "typeError")]
+    | .ok none => Json.mkObj [("dir", Json.null)]
+    | .ok (some p) => Json.mkObj [("dir", jstr p)]
+  | "base" =>
+    let l := (getStr j "label").toList
+    let n := (getStr j "name").toList
+    Json.mkObj [("base", jstr (if getStr j "mode" == "release" then releaseBase l n else developBase l n))]
+  | "clean" =>
+    let o : Opts := { mode := modeOf (getStr j "mode"), src := getBool j "src", force := getBool j "force",
+                      dryRun := getBool j "dryRun", verbose := getBool j "verbose" }
+    let w : World := { states := statesOf j "states",
+                       byName := (getArr j "byname").map fun e => let a := arrOf e; (jStr (nth a 0), jBool (nth a 1)),
+                       attic := strsOf j "attic", existing := strsOf j "existing",
+                       expendable := strsOf j "expendable", atticExpendable := strsOf j "atticExpendable" }
+    let g : Graph := (getArr j "pkgs").map pkgOf
+    match doClean o w g (getNat j "fuel") (getNat j "root") with
+    | none => Json.mkObj [("err", Json.str "fuel")]
+    | some r =>
+      Json.mkObj [("used", strsJson r.used), ("del", strsJson r.del),
+        ("ops", Json.arr (r.ops.map opJson).toArray), ("states", statesJson r.world.states),
+        ("existing", strsJson r.world.existing), ("attic", strsJson r.world.attic)]
+  | "prune" =>
+    let old := optStr (j.getObjValD "old")
+    let new := (getStr j "new").toList
+    let ops : List (PrepOp Str) :=
+      if getStr j "kind" == "build" then
+        cookBuild (getBool j "created") (getBool j "present") (getBool j "force") old new
+          (optStr (j.getObjValD "stored")) (getStr j "inputs").toList
+      else preparePackage (getBool j "there") (getBool j "fileOrLink") old new
+    Json.mkObj [("ops", Json.arr (ops.map prepJson).toArray)]
+  | _ => err "bad-op"
